@@ -54,6 +54,19 @@ type Env struct {
 	lookup func(name string, st *State, isOld bool) (Value, bool)
 	bound  map[string]SVal
 	depth  int
+	cc     *contractCalls // non-nil inside lemmas: real functions may be mentioned through their contracts
+}
+
+type contractCalls struct {
+	goals []*Term
+	hyps  []*Term
+	memo  map[string]SVal
+	used  map[string]bool
+}
+
+type STuple struct {
+	Names []string
+	Vals  []SVal
 }
 
 func (ev *Env) with(name string, v SVal) *Env {
@@ -100,6 +113,8 @@ func (ev *Env) EvalVal(e Expr) (v SVal, err error) {
 // toSVal converts a program value into a spec value w.r.t. the heaps of st.
 func toSVal(v Value, st *State) SVal {
 	switch x := v.(type) {
+	case SInt, SBool, SSlice, SArr, SPtr, SIface, SStruct, SUntyped, STuple:
+		return x
 	case VScalar:
 		switch x.Ty.K {
 		case TBool:
@@ -264,6 +279,13 @@ func (ev *Env) eval(e Expr) SVal {
 		}
 		base := ev.eval(x.X)
 		switch b := base.(type) {
+		case STuple:
+			for i, n := range b.Names {
+				if n == x.Name {
+					return b.Vals[i]
+				}
+			}
+			sfail("no result %q", x.Name)
 		case SPtr:
 			return ev.fieldRead(b, x.Name)
 		case SStruct:
@@ -683,6 +705,9 @@ func (ev *Env) call(x *ECall) SVal {
 		if ev.old != nil {
 			base = ev.old
 		}
+		if base.alloc == nil {
+			return SBool{True} // contract mentioned inside a lemma: no allocation state
+		}
 		return SBool{BVCmp("bvuge", s.Reg, base.alloc)}
 	case "sameslice":
 		a, aok := ev.eval(x.Args[0]).(SSlice)
@@ -709,6 +734,11 @@ func (ev *Env) call(x *ECall) SVal {
 	}
 	fn, ok := ev.W.SpecFns[x.Fn]
 	if !ok {
+		if ev.cc != nil {
+			if fs := ev.W.contractByShortName(x.Fn); fs != nil {
+				return ev.contractCall(fs, x)
+			}
+		}
 		sfail("unknown function %q in contract", x.Fn)
 	}
 	if len(x.Args) != len(fn.Params) {
@@ -853,4 +883,158 @@ func ConstArrOfArr(elem *Sort) *Term {
 func (ev *Env) effectQuery(x *ECall) SVal {
 	sfail("effect queries not implemented: %s", x.Fn)
 	return nil
+}
+
+// contractByShortName resolves "pkg.Func" to the contract of a function of the module.
+func (w *World) contractByShortName(name string) *FuncSpec {
+	for k, fs := range w.FuncSpecs {
+		if fs.External {
+			continue
+		}
+		if strings.HasSuffix(k, "/"+name) {
+			return fs
+		}
+	}
+	return nil
+}
+
+// contractCall evaluates a mention of a real function inside a lemma through its contract:
+// the function's requires become proof goals of the lemma, its result is a fresh value
+// constrained by the function's ensures. Only functions with frame "assigns nothing".
+func (ev *Env) contractCall(fs *FuncSpec, x *ECall) SVal {
+	w := ev.W
+	fn := w.findFunc(fs.Pkg, fs.Name)
+	if fn == nil {
+		sfail("contract call: no function %s", fs.Name)
+	}
+	for _, c := range fs.Clauses {
+		if c.Kind == "assigns" && strings.TrimSpace(c.Text) != "nothing" {
+			sfail("contract call of %s: function is not pure (assigns %s)", fs.Name, c.Text)
+		}
+	}
+	if len(x.Args) != len(fn.Params) {
+		sfail("contract call of %s: expected %d arguments", fs.Name, len(fn.Params))
+	}
+	bound := map[string]SVal{}
+	key := fs.Pkg + "." + fs.Name
+	for i, p := range fn.Params {
+		pt := tyFromGo(p.Type())
+		a := ev.eval(x.Args[i])
+		switch pt.K {
+		case TInt:
+			a = convUntyped(a, pt)
+			si, ok := a.(SInt)
+			if !ok || !sameTy(si.Ty, pt) {
+				sfail("contract call of %s: argument %d has the wrong type", fs.Name, i+1)
+			}
+			key += fmt.Sprintf("|%d", si.T.id)
+		case TBool:
+			sb, ok := a.(SBool)
+			if !ok {
+				sfail("contract call of %s: argument %d must be bool", fs.Name, i+1)
+			}
+			key += fmt.Sprintf("|%d", sb.T.id)
+		case TSlice:
+			ss, ok := a.(SSlice)
+			if !ok || !sameTy(ss.Ty.Elem, pt.Elem) {
+				sfail("contract call of %s: argument %d must be %s", fs.Name, i+1, pt)
+			}
+			if ss.Arr == nil {
+				sfail("contract call of %s: nested slices are not supported here", fs.Name)
+			}
+			key += fmt.Sprintf("|%d.%d.%d", ss.Arr.id, ss.Off.id, ss.Len.id)
+		default:
+			sfail("contract call of %s: unsupported parameter type %s", fs.Name, pt)
+		}
+		bound[p.Name()] = a
+	}
+	if v, ok := ev.cc.memo[key]; ok {
+		return v
+	}
+	ev.cc.used[fs.Pkg+"."+fs.Name] = true
+	// results
+	res := fn.Signature.Results()
+	tup := STuple{}
+	for j := 0; j < res.Len(); j++ {
+		rt := tyFromGo(res.At(j).Type())
+		name := fmt.Sprintf("r%d", j)
+		if j < len(fs.Results) {
+			name = fs.Results[j]
+		}
+		hint := fn.Name() + "." + name
+		var v SVal
+		switch rt.K {
+		case TInt:
+			v = SInt{FreshVar(hint, BV(rt.W)), rt}
+		case TBool:
+			v = SBool{FreshVar(hint, BoolSort)}
+		case TSlice:
+			if rt.Elem.scalarSort() == nil {
+				sfail("contract call of %s: unsupported result type %s", fs.Name, rt)
+			}
+			sl := SSlice{Arr: FreshVar(hint+".arr", ArrSort(IdxSort, rt.Elem.scalarSort())), Off: FreshVar(hint+".off", IdxSort), Len: FreshVar(hint+".len", IdxSort), Ty: rt}
+			sl.Reg = FreshVar(hint+".reg", RegSort)
+			ev.cc.hyps = append(ev.cc.hyps, BVCmp("bvsle", BVInt(0, 64), sl.Len), BVCmp("bvsle", BVInt(0, 64), sl.Off),
+				BVCmp("bvsle", sl.Len, BVInt(int64(1)<<48, 64)), BVCmp("bvsle", sl.Off, BVInt(int64(1)<<48, 64)))
+			v = sl
+		default:
+			sfail("contract call of %s: unsupported result type %s", fs.Name, rt)
+		}
+		tup.Names = append(tup.Names, name)
+		tup.Vals = append(tup.Vals, v)
+	}
+	cst := ev.st
+	pre := &Env{W: w, st: cst, pkg: fn.Pkg, bound: map[string]SVal{}, cc: nil}
+	for k, v := range bound {
+		pre.bound[k] = v
+	}
+	for _, c := range fs.Clauses {
+		if c.Kind == "requires" {
+			b, ok := pre.eval(c.E).(SBool)
+			if !ok {
+				sfail("requires of %s not boolean", fs.Name)
+			}
+			ev.cc.goals = append(ev.cc.goals, b.T)
+		}
+	}
+	post := &Env{W: w, st: cst, pkg: fn.Pkg, bound: map[string]SVal{}, cc: nil}
+	for k, v := range bound {
+		post.bound[k] = v
+	}
+	for j, n := range tup.Names {
+		post.bound[n] = tup.Vals[j]
+	}
+	if len(tup.Vals) >= 1 {
+		post.bound["result"] = tup.Vals[0]
+	}
+	post.bound["$alloc0"] = SInt{BVInt(1, 32), intTy(32, false)}
+	for _, c := range fs.Clauses {
+		if c.Kind == "defines" && len(tup.Vals) == 1 {
+			if si, ok := post.eval(c.E).(SInt); ok {
+				if ri, ok := tup.Vals[0].(SInt); ok {
+					ev.cc.hyps = append(ev.cc.hyps, Eq(ri.T, si.T))
+				}
+			}
+		}
+		if c.Kind == "ensures" {
+			b, ok := post.eval(c.E).(SBool)
+			if !ok {
+				sfail("ensures of %s not boolean", fs.Name)
+			}
+			ev.cc.hyps = append(ev.cc.hyps, b.T)
+		}
+	}
+	var out SVal = tup
+	if len(tup.Vals) == 1 {
+		out = tup.Vals[0]
+	}
+	ev.cc.memo[key] = out
+	return out
+}
+
+func convUntyped(a SVal, to *STy) SVal {
+	if u, ok := a.(SUntyped); ok {
+		return SInt{BVConst(u.V, to.W), to}
+	}
+	return a
 }
